@@ -43,7 +43,7 @@ var (
 		new(uint256.Int).AddUint64(new(uint256.Int).Lsh(uint256.NewInt(1), 128), 31)}
 	c11Types = []common.Hash{common.HexToHash("0x01"), common.HexToHash("0x02"), common.HexToHash("0x03")}
 	c11Names = []string{"", "a", "b", "c"}
-	c11Index = [][]byte{{1}, {2}, bytes.Repeat([]byte{3}, 32), []byte("key")}
+	c11Index = [][]byte{{1}, {2}, bytes.Repeat([]byte{3}, 32), []byte("key"), {}, {0}} // incl. the empty key (m[""]) and a zero byte
 	c11Vals  = [][]byte{{}, {1}, {2}, {1, 2, 3}}
 )
 
